@@ -138,6 +138,17 @@ func (w *world) apply(kind string, o sop) bool {
 				viol("append-failed", "", err.Error())
 				return false
 			}
+		case "append-cancelled":
+			// Append with an already-cancelled context: a store may refuse it (then the log
+			// is unchanged) or ignore the context (then the event is in the log); whatever
+			// it does, everything after it must still behave as one log.
+			cctx, cancel := context.WithCancel(bg)
+			cancel()
+			i := len(w.log) + 1
+			ev := &eventbus.Event{Type: "t", Data: json.RawMessage(fmt.Sprintf(`{"i":%d}`, i)), Timestamp: time.Unix(1700000000+int64(i), int64(i)).UTC()}
+			if off, err := w.hd.Store.Append(cctx, ev); err == nil {
+				w.log = append(w.log, entry{off, ev.Type, string(ev.Data), ev.Timestamp})
+			}
 		case "save":
 			off := w.offAt(o.Pos)
 			if err := w.hd.Sub.SaveOffset(bg, o.ID, off); err != nil {
@@ -362,6 +373,81 @@ func (w *world) battery() (queries int) {
 			w.viol("saved-offset-wrong", "", fmt.Sprintf("LoadOffset(%s) = %q (err %v), want %q", id, got, err, want))
 		}
 	}
+	return queries + w.overlappingStreams()
+}
+
+// overlappingStreams: a stream the consumer abandons, a stream whose context is cancelled
+// after the first event, and then two streams open at the same time (one started inside
+// the loop body of the other, at every element): each must still yield the log. Streaming
+// reads return the same sequence also when they overlap, and whatever a store recycles
+// between streams (snapshot buffers, cursors, batch slices) must not be shared by two
+// streams that are both live.
+func (w *world) overlappingStreams() (queries int) {
+	if w.hd.Stream == nil || len(w.log) == 0 || len(w.log) > 8 {
+		return 0
+	}
+	collect := func(ctx context.Context, from eventbus.Offset, inner func()) (got []*eventbus.StoredEvent, err error) {
+		for e, er := range w.hd.Stream.ReadStream(ctx, from) {
+			if er != nil {
+				return got, er
+			}
+			cp := *e
+			cp.Data = append([]byte(nil), e.Data...)
+			if inner != nil {
+				inner()
+			}
+			// the element handed to the consumer must still be what it was after other
+			// streams ran
+			if string(e.Data) != string(cp.Data) || e.Offset != cp.Offset {
+				w.viol("stream-differs", "an element yielded by ReadStream changed while another stream of the same store ran", fmt.Sprintf("offset %q -> %q", cp.Offset, e.Offset))
+			}
+			got = append(got, &cp)
+		}
+		return got, nil
+	}
+	check := func(what string, got []*eventbus.StoredEvent, err error, want []entry) {
+		if err != nil || len(got) != len(want) {
+			w.viol("stream-differs", what+": ReadStream yields "+fewerMore(len(got), len(want))+" events than Read", fmt.Sprintf("%s yielded %d events (err %v), the log has %d", what, len(got), err, len(want)))
+			return
+		}
+		for i, e := range got {
+			if d := w.same(e, want[i], true); d != "" {
+				w.viol("stream-differs", what+": wrong event", fmt.Sprintf("event %d: %s", i, d))
+				return
+			}
+		}
+	}
+	// abandoned by the consumer
+	for range w.hd.Stream.ReadStream(bg, eventbus.OffsetOldest) {
+		break
+	}
+	// cancelled after the first event (the rest may or may not arrive; an error is fine)
+	cctx, cancel := context.WithCancel(bg)
+	n := 0
+	for _, er := range w.hd.Stream.ReadStream(cctx, eventbus.OffsetOldest) {
+		if er != nil {
+			break
+		}
+		n++
+		cancel()
+	}
+	cancel()
+	queries += 2
+	// two streams live at the same time
+	pos := 0
+	outer, err := collect(bg, eventbus.OffsetOldest, func() {
+		// the inner streams start at other positions than the outer one (a buffer shared by
+		// two streams of the same content would go unnoticed): the tail after the current
+		// element, and the whole log
+		pos++
+		for _, p := range []int{0, pos} {
+			queries++
+			in, ierr := collect(bg, w.offAt(p), nil)
+			check("a stream started while another stream of the same store is being consumed", in, ierr, w.log[p:])
+		}
+	})
+	queries++
+	check("a stream during which other streams of the same store were started and consumed", outer, err, w.log)
 	return queries
 }
 
@@ -439,11 +525,12 @@ func searchStructure(c *h.Check, kind string, preload, depth int, idx *int) {
 		// examined before, or the depth limit): reads are not part of the alphabet because
 		// they do not change a conforming store - but they may change what an implementation
 		// remembers (a cached tail, a warmed-up statement, a pooled reader) - so after the
-		// queries above the log is extended, queried completely, an offset is saved, the
+		// queries above the log is extended by two events, queried completely, an offset is saved, the
 		// store is reopened and queried again.
 		if ok && closing {
-			L := len(w.log)
-			if w.apply(kind, sop{K: "append"}) {
+			L := len(w.log) - 1
+			if w.apply(kind, sop{K: "append"}) && w.apply(kind, sop{K: "append"}) {
+				L += 2
 				q += w.battery()
 				if w.apply(kind, sop{K: "save", ID: "a", Pos: L}) && w.apply(kind, sop{K: "reopen"}) && w.apply(kind, sop{K: "append"}) {
 					q += w.light()
@@ -487,6 +574,9 @@ func searchStructure(c *h.Check, kind string, preload, depth int, idx *int) {
 				}
 			}
 			succ = append(succ, sop{K: "reopen"}, sop{K: "second"})
+			// a refused (or not refused) append, followed by the closing sequence; not
+			// extended by the search (its effect on the log length depends on the store)
+			exec(append(append([]sop{}, n.ops...), sop{K: "append-cancelled"}), false, true)
 			for _, o := range succ {
 				ops := append(append([]sop{}, n.ops...), o)
 				// model-level state after ops (a save whose context was cancelled leaves the
